@@ -1069,6 +1069,38 @@ DIRECTED = [
          {"method_name": "cut", "goal_id": "0", "fact_ids": [], "goal": "A"},
          {"method_name": "cases", "goal_id": "1", "fact_ids": [], "case": "A"},
      ]},
+    # exists_elim records the eliminated fact in the arguments of the closing `intros` line; revert_intro
+    # of the assumption exists_elim introduced re-sets that line: the last line must go on stating the goal
+    {"name": "revert-intro-after-exists-elim", "theory": "logic", "vars": {"P": "'a => bool", "Q": "bool"},
+     "prop": "(?x. P x) --> (!x. P x --> Q) --> Q",
+     "steps": [
+         {"method_name": "exists_elim", "goal_id": "2", "fact_ids": ["0"], "names": "a"},
+         {"method_name": "revert_intro", "goal_id": "4", "fact_ids": ["3"]},
+         {"method_name": "introduction", "goal_id": "3", "fact_ids": [], "names": ""},
+         {"method_name": "forall_elim", "goal_id": "3.1", "fact_ids": ["1"], "s": "a"},
+         {"method_name": "apply_prev", "goal_id": "3.2", "fact_ids": ["3.1", "3.0"]},
+     ]},
+    # the same inside a subproof
+    {"name": "revert-intro-after-exists-elim-nested", "theory": "logic", "vars": {"P": "'a => bool", "Q": "bool", "R": "bool"},
+     "prop": "R & ((?x. P x) --> (!x. P x --> Q) --> Q)",
+     "steps": [
+         {"method_name": "apply_backward_step", "goal_id": "0", "fact_ids": [], "theorem": "conjI"},
+         {"method_name": "introduction", "goal_id": "1", "fact_ids": [], "names": ""},
+         {"method_name": "exists_elim", "goal_id": "1.2", "fact_ids": ["1.0"], "names": "a"},
+         {"method_name": "revert_intro", "goal_id": "1.4", "fact_ids": ["1.3"]},
+     ]},
+    # a fact selected from a closed sibling subproof (0.0 for a goal in subproof 1): must be refused
+    {"name": "fact-from-closed-sibling-subproof", "theory": "logic", "vars": {"A": "bool", "B": "bool"},
+     "prop": "(A --> B | A) & (A --> A | B)",
+     "steps": [
+         {"method_name": "apply_backward_step", "goal_id": "0", "fact_ids": [], "theorem": "conjI"},
+         {"method_name": "introduction", "goal_id": "0", "fact_ids": [], "names": ""},
+         {"method_name": "introduction", "goal_id": "1", "fact_ids": [], "names": ""},
+         {"method_name": "apply_backward_step", "goal_id": "1.1", "fact_ids": ["0.0"], "theorem": "disjI1", "_must_be_refused": True},
+         {"method_name": "apply_forward_step", "goal_id": "1.1", "fact_ids": ["0.0"], "theorem": "disjI1", "_must_be_refused": True},
+         {"method_name": "apply_backward_step", "goal_id": "1.1", "fact_ids": ["1.0"], "theorem": "disjI1"},
+         {"method_name": "apply_backward_step", "goal_id": "0.1", "fact_ids": ["0.0"], "theorem": "disjI2"},
+     ]},
     # two new gaps, the first already proved by an earlier line, the second not: the trivial-closing
     # loop of apply_tactic must not touch the second
     {"name": "apply-tactic-proved-then-open", "theory": "logic", "vars": {"A": "bool", "B": "bool", "C": "bool"},
@@ -1087,7 +1119,11 @@ def run_directed(ctx, rng, recorder=None, **kw):
         for on_copy in (False, True):
             r = Runner(ctx, g, rng, 1.0, recorder, **kw)
             for st in sc["steps"]:
+                ab = assume_positions(r.state)
                 out = r.apply(dict(st), on_copy=on_copy, adopt=True, source="directed")
+                probes(r, st, ab, out)
+                if out != "ok" and st.get("_must_be_refused"):
+                    continue
                 if out != "ok":
                     ctx.count("directed-incomplete:%s" % sc["name"])
                     ctx.log("directed scenario %s stopped at %s: %s" % (sc["name"], st["method_name"], r.trail[-1:] and r.trail[-1].get("outcome")))
@@ -1173,7 +1209,10 @@ def run_recorded(ctx, goal, rng, perturb_rate, export_rate, recorder=None, **kw)
                 on_copy = rng.random() < 0.6
                 r.apply(s, on_copy=on_copy, adopt=rng.random() < 0.3, source=kind)
         on_copy = rng.random() < 0.3
+        ab = assume_positions(r.state)
         out = r.apply(step, on_copy=on_copy, adopt=True, source="recorded")
+        if perturb_rate > 0:
+            probes(r, step, ab, out)
         if out == "ok" and perturb_rate > 0 and not r.dead and rng.random() < 0.25:
             edit_before_finished_subproof(r, rng)
         if out not in ("ok",) and perturb_rate == 0:
@@ -1227,6 +1266,135 @@ def edit_before_finished_subproof(r, rng):
         r.apply(s2, on_copy=True, adopt=rng.random() < 0.5, source="before-finished")
 
 
+
+# ---------------------------------------------------------------------- probes (on copies, own random stream)
+STRUCTURAL = {"exists_elim", "induction", "cases", "introduction"}
+FACT_KINDS = ["apply_fact", "apply_prev", "forall_elim", "exists_elim", "rewrite_goal_with_prev", "rewrite_fact_with_prev",
+              "search", "search", "search", "search"]
+
+
+def invisible_facts(state, goal_pos):
+    """Stated lines that the line at `goal_pos` must NOT cite, by the harness's own reading of
+    'earlier visible line', sorted into: lines inside an earlier closed sibling block (of the goal's
+    block or of an enclosing one), later lines, lines of deeper blocks that start later."""
+    sib, later, deeper = [], [], []
+    for pos, it in walk(state):
+        if it.th is None or pos == goal_pos or visible(pos, goal_pos):
+            continue
+        if any(visible(pos[:k], goal_pos) for k in range(1, len(pos))):
+            sib.append(pos)                # below a line that is itself visible: a closed earlier block
+        elif len(pos) <= len(goal_pos) and pos[:len(pos) - 1] == goal_pos[:len(pos) - 1]:
+            later.append(pos)
+        else:
+            deeper.append(pos)
+    return sib, later, deeper
+
+
+def probe_rng(r, tag):
+    r.probe_n = getattr(r, "probe_n", 0) + 1
+    return r.ctx.rng("probe/%s/%s/%d/%d" % (tag, r.goal.ident(), len(r.trail), r.probe_n))
+
+
+def probes(r, step, assumes_before, out):
+    """Run after every step of a walk / recorded replay; draws from its own random stream and edits
+    copies only, so the sequence itself is the one it would be without the probes."""
+    if r.dead or not r.judge_states:
+        return
+    try:
+        if out == "ok" and step is not None:
+            probe_revert_after(r, step, assumes_before)
+        if probe_rng(r, "gate").random() < 0.35:
+            probe_invisible_facts(r)
+    except Timeout:
+        pass
+
+
+def probe_invisible_facts(r):
+    """A method aimed at a gap with a fact selection that contains a line the gap may not cite
+    (closed sibling block / later line / deeper line), on a copy that is discarded.  The request
+    must be refused; if it completes, the judge finds the citation (`citation-not-visible`)."""
+    if r.dead:
+        return
+    rng = probe_rng(r, "invisible")
+    state = r.state
+    gaps = [pos for pos, it in walk(state) if it.rule == "sorry"]
+    if not gaps:
+        return
+    saved, r.rng = r.rng, rng
+    try:
+        for _ in range(2):
+            gp = rng.choice(gaps)
+            sib, later, deeper = invisible_facts(state, gp)
+            pool = sib if sib and rng.random() < 0.7 else (sib + later + deeper)
+            if not pool:
+                continue
+            bad = rng.choice(pool)
+            vis = visible_facts(state, gp)
+            kind = rng.choice(FACT_KINDS)
+            facts = [bad]
+            if vis and rng.random() < 0.4:
+                facts.insert(rng.randint(0, 1), rng.choice(vis))
+            r.ctx.count("probe:invisible-fact:%s" % ("sibling-block" if bad in sib else "later" if bad in later else "deeper"))
+            step = None
+            try:
+                if kind == "search":
+                    with time_limit(STEP_LIMIT):
+                        res = state.search_method(id_str(gp), [id_str(f) for f in facts])
+                    if res:
+                        step = fill_params(state, rng.choice(res), rng)
+                else:
+                    k = 2 if kind == "rewrite_fact_with_prev" else None
+                    if k == 2 and len(facts) < 2:
+                        facts = facts + [rng.choice(vis)] if vis else facts * 2
+                    step = fill_params(state, {"method_name": kind, "goal_id": id_str(gp), "fact_ids": [id_str(f) for f in facts]}, rng)
+            except Timeout:
+                return
+            except Exception:  # noqa
+                step = None
+            if step is not None and not r.dead:
+                out = r.apply(step, on_copy=True, adopt=False, source="invisible-fact")
+                if out == "ok":
+                    r.ctx.count("probe:invisible-fact:completed")
+    finally:
+        r.rng = saved
+
+
+def probe_revert_after(r, step, assumes_before):
+    """After a completed structural method (exists_elim, induction, cases, introduction): revert_intro
+    of an assumption it introduced, at the gap that the closing `intros` line follows, on a copy.
+    Every completed step is judged (last line = stated goal, re-check returns the stated goal)."""
+    if r.dead or step.get("method_name") not in STRUCTURAL:
+        return
+    rng = probe_rng(r, "revert")
+    lines = walk(r.state)
+    by_pos = dict(lines)
+    cands = []
+    for pos, it in lines:
+        if it.rule != "assume":
+            continue
+        for g in range(pos[-1] + 1, pos[-1] + 6):
+            gp, nx = pos[:-1] + (g,), pos[:-1] + (g + 1,)
+            if gp in by_pos and by_pos[gp].rule == "sorry" and nx in by_pos and by_pos[nx].rule == "intros":
+                cands.append((pos not in assumes_before, gp, pos))
+    if not cands:
+        return
+    new = [c for c in cands if c[0]]
+    _, gp, a = rng.choice(new) if new and rng.random() < 0.8 else rng.choice(cands)
+    saved, r.rng = r.rng, rng
+    try:
+        r.ctx.count("probe:revert-after:%s" % step.get("method_name"))
+        s2 = {"method_name": "revert_intro", "goal_id": id_str(gp), "fact_ids": [id_str(a)]}
+        out = r.apply(s2, on_copy=True, adopt=False, source="revert-after")
+        if out == "ok":
+            r.ctx.count("probe:revert-after:completed:%s" % step.get("method_name"))
+    finally:
+        r.rng = saved
+
+
+def assume_positions(state):
+    return {pos for pos, it in walk(state) if it.rule == "assume"}
+
+
 def run_walk(ctx, goal, rng, length, export_rate, recorder=None, **kw):
     """Random walk: suggestions of search_method and interleaved generated method applications."""
     r = Runner(ctx, goal, rng, export_rate, recorder, **kw)
@@ -1240,7 +1408,10 @@ def run_walk(ctx, goal, rng, length, export_rate, recorder=None, **kw):
         if s is None:
             continue
         on_copy = rng.random() < 0.4
-        out = r.apply(s, on_copy=on_copy, adopt=rng.random() < 0.6, source="walk")
+        ab = assume_positions(r.state)
+        adopt = rng.random() < 0.6
+        out = r.apply(s, on_copy=on_copy, adopt=adopt, source="walk")
+        probes(r, s, ab, out if (not on_copy or adopt) else "discarded")
         if r.rng.random() < 0.15 and r.trail:
             # repeated application of the step just made
             r.apply(dict(r.trail[-1]["step"]), on_copy=rng.random() < 0.5, adopt=True, source="repeat")
@@ -1831,8 +2002,12 @@ def replay(ctx, rp):
 MANIFEST = {
     "text": "Property oracle on the real server/method.py + server/server.py after every completed step of generated edit sequences "
             "(corpus of past failures first; recorded library steps, search_method suggestions, random perturbation incl. the same method "
-            "again in the same scope; directed scenarios; live state or copy): contiguous numbering, citations earlier+visible, last line = "
-            "stated goal, full re-check with exactly the open gaps, acceptance with no_gaps when none is left, export->import identity, copy "
+            "again in the same scope; after every step, on discarded copies and with a random stream of their own: revert_intro of the "
+            "assumption a structural method (exists_elim, induction, cases, introduction) just introduced, and every fact-taking method / "
+            "search with a fact the gap may not cite - a line of a closed earlier sibling block, a later line, a deeper line - which must be "
+            "refused; directed scenarios; live state or copy): contiguous numbering, every citation of every line earlier+visible by the "
+            "harness's own reading (same or enclosing block, strictly earlier position), last line = stated goal (stated sequent and rule, "
+            "compared after every completed step, and the re-check must return that sequent), full re-check with exactly the open gaps, acceptance with no_gaps when none is left, export->import identity, copy "
             "isolation (lines, variables, report; identity and content of every argument object; no Proof/ProofItem/prevs object shared with a "
             "copy). Lean: executable model of the proof tree and "
             "of add_line_before / remove_line / set_line / replace_id / find_goal / apply_tactic, of export_proof / parse_proof (structure "
